@@ -1,7 +1,7 @@
 """C09 — read and received marks only move forward and stay within bounds."""
 from props import topic_common as tc
 
-KINDS = ["NewGrp", "Sub", "Leave", "SetSelf", "SetOther", "Pub", "Note", "Unload"]
+KINDS = ["NewGrp", "Sub", "Leave", "SetSelf", "SetOther", "Pub", "Note", "Unload", "Reload"]
 
 
 def run(ctx):
